@@ -11,7 +11,7 @@ import vcommon
 
 RULE = ("a valid input set for every command (snps, closest, updown list, updown topranking fasta and csv, variants gb/gff, sam "
         "toMultiAlign, sam toPairAlign, sam variants) is first run unchanged (must exit 0), then each listed corruption is "
-        "applied to each applicable input file at the first, a middle and the last record: unequal row length, non-IUPAC "
+        "applied to each applicable input file at the first, a middle and the last record: unequal row length (longer, shorter, or a header with no sequence at all), non-IUPAC "
         "symbol, empty file, missing file, header-less/empty SAM, reference vs alignment width, query vs target width, two "
         "records in --reference, empty CSV, CSV that is not updown list output, window outside 1..reference length and "
         "start > end, unrecognised annotation suffix, no size/dist option. Every run is the built binary under a timeout; "
@@ -38,6 +38,10 @@ def corrupt_fasta(recs, kind, pos):
         if len(recs) < 2 or len(recs[i][1]) < 2:
             return None
         recs[i][1] = recs[i][1][:-1]
+    elif kind == "emptyseq":          # a header with no sequence at all
+        if len(recs) < 2:
+            return None
+        recs[i][1] = ""
     elif kind == "badsym":
         s = recs[i][1]
         recs[i][1] = s[:len(s) // 2] + "J" + s[len(s) // 2 + 1:]
@@ -115,7 +119,7 @@ def check(ctx):
             return [new if a == old else a for a in argv]
         # corrupted alignment files
         n = 0
-        for kind in ("unequal", "shorter", "badsym"):
+        for kind in ("unequal", "shorter", "badsym", "emptyseq"):
             for pos in (0, 1, 2):
                 b = corrupt_fasta(aln, kind, pos)
                 if b is None:
